@@ -17,11 +17,20 @@ def _(c):
 
 @contract("pyanalyze.typevar.remove_redundant_solutions", props=P)
 def _(c):
-    c.param("solutions", "seq")
+    c.param("solutions", "seq[obj:Value]")
     c.returns("seq")
-    c.loop(0, invariant="len(temp_solutions) == len(solutions) and all(temp_solutions[j] is None or temp_solutions[j] is solutions[j] for j in range(len(solutions)))", name="only_erases")
-    c.loop(1, invariant="len(temp_solutions) == len(solutions) and all(temp_solutions[j] is None or temp_solutions[j] is solutions[j] for j in range(len(solutions)))", name="only_erases")
+    erases = "len(temp_solutions) == len(solutions) and all(temp_solutions[j] is None or temp_solutions[j] is solutions[j] for j in range(len(solutions)))"
+    wider = "(solutions[{a}].is_assignable(solutions[{b}], ctx) and not solutions[{b}].is_assignable(solutions[{a}], ctx))"
+    kept_ok = ("all(implies(temp_solutions[a] is not None, all(implies(b != a and temp_solutions[b] is not None, not " + wider.format(a="a", b="b") + ") for b in range(len(solutions))))"
+               " for a in range({n}))")
+    c.loop(0, invariant=[("only_erases", erases), ("kept_candidates_have_no_strictly_narrower_kept_candidate", kept_ok.format(n="_k0"))])
+    c.loop(1, invariant=[("only_erases", erases), ("kept_candidates_have_no_strictly_narrower_kept_candidate", kept_ok.format(n="i")),
+                         ("current_candidate_checked_so_far", "same(sol, solutions[i]) and 0 <= i and i < len(solutions) and implies(temp_solutions[i] is not None, all(implies(b != i and temp_solutions[b] is not None, not "
+                          + wider.format(a="i", b="b") + ") for b in range(_k1)))")])
     c.ensures("all(exists(lambda j: 0 <= j and j < len(solutions) and same(r, solutions[j])) for r in result)", name="subsequence")
+    c.ensures("implies(len(solutions) <= 10, all(all(implies(a != b and contains(result, solutions[a]) and contains(result, solutions[b]) and distinct(solutions), not " + wider.format(a="a", b="b")
+              + ") for b in range(len(solutions))) for a in range(len(solutions))))", name="no_kept_candidate_strictly_contains_another_kept_candidate")
+    c.assume("is_assignable is a pure function of its operands during the call (functional dispatch symbol); with more than 10 candidates the list is returned unchanged")
 
 
 @contract("pyanalyze.typevar.solve", props=P)
